@@ -108,12 +108,21 @@ def _frame_owner(filename):
     return None
 
 
-def innermost(tb):
+def innermost(tb, only=None):
     """(owner, "module:function") of the innermost frame that belongs to
     nfcpy or to the harness, skipping stdlib / third party frames."""
     found = (None, None)
     for fs in traceback.extract_tb(tb):
         owner = _frame_owner(fs.filename)
+        if only == "nfc-not-clf":
+            # the frontend passes driver errors through by design: name the
+            # caller of ContactlessFrontend.exchange()
+            if owner != "nfc" or fs.filename.replace("\\", "/").endswith(
+                    "/nfc/clf/__init__.py"):
+                continue
+            owner = "nfc"
+        elif owner and only is not None and owner != only:
+            continue
         if owner:
             mod = os.path.splitext(fs.filename.replace("\\", "/"))[0]
             if owner == "nfc":
@@ -130,6 +139,16 @@ def unexpected(exc, oracle="unexpected-exception", detail=None):
     """turn an exception raised by nfcpy into a Violation (or a HarnessError
     when its innermost frame is harness code)"""
     owner, frame = innermost(exc.__traceback__)
+    if owner == "verif" and (type(exc).__module__.startswith("nfc.")
+                             or isinstance(exc, EnvironmentError)):
+        # a simulated driver / transport raised one of its documented
+        # errors (nfc.clf.CommunicationError, IOError) and nfcpy let it
+        # through: that is nfcpy's doing, report the nfcpy frame
+        o2, f2 = innermost(exc.__traceback__, only="nfc-not-clf")
+        if o2 is None:
+            o2, f2 = innermost(exc.__traceback__, only="nfc")
+        if o2 is not None:
+            owner, frame = "nfc", f2
     if owner != "nfc":
         raise HarnessError("harness failure: %s: %s at %s\n%s" % (
             type(exc).__name__, exc, frame,
